@@ -233,7 +233,7 @@ pub fn histories(ss: &[(&'static str, Vec<u8>, Vec<u8>)], thorough: bool) -> Vec
             }
         }
         // both directions in two pieces each: every cut pair on a stride, every interleaving that keeps nothing fixed
-        let cstep = if thorough { 3 } else { 11 };
+        let cstep = if thorough { 1 } else { 11 };
         for c1 in (1..req.len()).step_by(cstep) {
             for c2 in (1..resp.len()).step_by(cstep) {
                 let a = [(true, 0, c1), (true, c1, req.len() - c1)];
@@ -248,7 +248,7 @@ pub fn histories(ss: &[(&'static str, Vec<u8>, Vec<u8>)], thorough: bool) -> Vec
             }
         }
         // four pieces of the request in all 24 arrival orders (cut positions on a stride)
-        let step = if thorough { 9 } else { 23 };
+        let step = if thorough { 3 } else { 23 };
         for c1 in (1..req.len()).step_by(step) {
             for c2 in ((c1 + 1)..req.len()).step_by(step) {
                 for c3 in ((c2 + 1)..req.len()).step_by(step) {
